@@ -14,6 +14,7 @@
    names are their byte lists (write_pascal_str encodes with 'ascii', so every byte must be < 128). *)
 From Coq Require Import ZArith List Bool String Ascii.
 Import ListNotations.
+Require Import SC3.gen.Gen_scgftables.   (* REGENERATED: rate tables, reader class tables *)
 Open Scope Z_scope.
 
 Definition bytes := list Z.
@@ -210,12 +211,12 @@ Fixpoint resolve_variants (name : bytes) (ctl : list Z) (names : list (bytes * Z
 (* parser, from the format description                                *)
 
 Inductive err :=
-| Truncated | NotBytes | BadMagic | BadVersion | BadDefCount | NegCount | BadUgenIndex | Trailing | OutOfFuel.
+| Truncated | NotBytes | BadMagic | BadVersion | BadDefCount | NegCount | BadUgenIndex | Trailing | OutOfFuel | NotAscii.
 Definition err_eqb (a b : err) : bool :=
   match a, b with
   | Truncated, Truncated | NotBytes, NotBytes | BadMagic, BadMagic | BadVersion, BadVersion
   | BadDefCount, BadDefCount | NegCount, NegCount | BadUgenIndex, BadUgenIndex | Trailing, Trailing
-  | OutOfFuel, OutOfFuel => true
+  | OutOfFuel, OutOfFuel | NotAscii, NotAscii => true
   | _, _ => false
   end.
 
@@ -272,8 +273,13 @@ Definition rd_inp : parser inp :=
   a <- rd_i32 ;; b <- rd_i32 ;;
   if a =? -1 then pret (IConst b) else if a <? 0 then pfail BadUgenIndex else pret (IOut a b).
 
-Definition rd_ugen : parser ugen :=
-  cls <- rd_pstr ;; rate <- rd_i8 ;; ni <- rd_i32 ;; no <- rd_i32 ;; sp <- rd_i16 ;;
+(* the unit-spec, parameter-name and "core" readers are shared by the format parser (pascal
+   strings read with rd_pstr) and by the mirror of the library's reader (read with lib_rd_pstr) *)
+Section WithPstr.
+Variable ps : parser bytes.
+
+Definition rd_ugen_w : parser ugen :=
+  cls <- ps ;; rate <- rd_i8 ;; ni <- rd_i32 ;; no <- rd_i32 ;; sp <- rd_i16 ;;
   if (ni <? 0) || (no <? 0) then pfail NegCount else
   fun bs =>
   match rep (S (List.length bs)) rd_inp ni bs with
@@ -285,7 +291,21 @@ Definition rd_ugen : parser ugen :=
     end
   end.
 
-Definition rd_pname : parser (bytes * Z) := n <- rd_pstr ;; i <- rd_i32 ;; pret (n, i).
+Definition rd_pname_w : parser (bytes * Z) := n <- ps ;; i <- rd_i32 ;; pret (n, i).
+
+(* everything up to and including the units *)
+Definition rd_core_w : parser (bytes * list Z * list Z * list (bytes * Z) * list ugen) :=
+  name <- ps ;;
+  consts <- rd_counted rd_i32 rd_w32 ;;
+  ctl <- rd_counted rd_i32 rd_w32 ;;
+  names <- rd_counted rd_i32 rd_pname_w ;;
+  units <- rd_counted rd_i32 rd_ugen_w ;;
+  pret (name, consts, ctl, names, units).
+End WithPstr.
+
+Definition rd_ugen : parser ugen := rd_ugen_w rd_pstr.
+Definition rd_pname : parser (bytes * Z) := rd_pname_w rd_pstr.
+Definition rd_core := rd_core_w rd_pstr.
 
 Definition rd_variant (nctl : Z) : parser variant :=
   n <- rd_pstr ;; fun bs =>
@@ -300,15 +320,6 @@ Definition rd_magic : parser unit :=
 Definition rd_header : parser unit :=
   _ <- rd_magic ;; v <- rd_i32 ;; if negb (v =? 2) then pfail BadVersion else
   n <- rd_i16 ;; if negb (n =? 1) then pfail BadDefCount else pret tt.
-
-(* everything up to and including the units (shared with the library-reader mirror below) *)
-Definition rd_core : parser (bytes * list Z * list Z * list (bytes * Z) * list ugen) :=
-  name <- rd_pstr ;;
-  consts <- rd_counted rd_i32 rd_w32 ;;
-  ctl <- rd_counted rd_i32 rd_w32 ;;
-  names <- rd_counted rd_i32 rd_pname ;;
-  units <- rd_counted rd_i32 rd_ugen ;;
-  pret (name, consts, ctl, names, units).
 
 Definition rd_body : parser sdef :=
   c <- rd_core ;;
@@ -327,7 +338,8 @@ Definition parse_def (bs : bytes) : res sdef :=
 (* ------------------------------------------------------------------ *)
 (* well-formedness of a definition                                    *)
 
-Definition rate_ok (r : Z) : bool := (0 <=? r) && (r <=? 3).
+(* a rate number is an index into SynthDesc._RATE_NAME (regenerated) *)
+Definition rate_ok (r : Z) : bool := (0 <=? r) && (r <? zlen gen_rate_names).
 
 Definition nth_z {A} (l : list A) (i : Z) : option A :=
   if i <? 0 then None else nth_error l (Z.to_nat i).
@@ -342,8 +354,7 @@ Definition inp_wf (nconsts : Z) (outs_before : list Z) (i : inp) : bool :=
                 end
   end.
 
-Definition ctl_classes : list bytes :=
-  List.map bs_of_string ["Control"; "TrigControl"; "LagControl"; "AudioControl"]%string.
+Definition ctl_classes : list bytes := List.map bs_of_string gen_control_classes.
 Definition is_ctl_cls (c : bytes) : bool := existsb (bytes_eqb c) ctl_classes.
 
 Definition ugen_wf (nconsts nctl : Z) (outs_before : list Z) (u : ugen) : bool :=
@@ -405,15 +416,12 @@ Record desc := mkDesc {
   ds_outs : list iodesc
 }.
 
-Definition in_classes : list bytes :=
-  List.map bs_of_string ["In"; "LocalIn"; "LagIn"; "InFeedback"; "InTrig"]%string.
+Definition in_classes : list bytes := List.map bs_of_string gen_in_classes.
 (* AbstractOut classes with _num_fixed_args() *)
 Definition out_classes : list (bytes * Z) :=
-  List.map (fun p => (bs_of_string (fst p), snd p))
-    [("Out", 1); ("ReplaceOut", 1); ("OffsetOut", 1); ("LocalOut", 0); ("XOut", 2)]%string.
-(* isinstance(b.source_ugen, iou.Control): Control, TrigControl, LagControl -- not AudioControl *)
-Definition control_sub_classes : list bytes :=
-  List.map bs_of_string ["Control"; "TrigControl"; "LagControl"]%string.
+  List.map (fun p => (bs_of_string (fst p), snd p)) gen_out_classes.
+(* isinstance(b.source_ugen, iou.Control): Control and its subclasses -- not AudioControl *)
+Definition control_sub_classes : list bytes := List.map bs_of_string gen_controlname_classes.
 
 Fixpoint assoc_b {B} (l : list (bytes * B)) (k : bytes) : option B :=
   match l with
@@ -572,13 +580,34 @@ Definition desc_of (name : bytes) (consts ctlw : list Z) (names : list (bytes * 
     end
   end.
 
-(* SynthDesc.new_from on the bytes: 4 bytes skipped, version (>= 2), def count (unused),
-   then _read_synthdef2, which stops after the variant count *)
+(* sc3/synth/_fmtrw.py, the read side, exactly:
+     read_i8   struct.unpack('b',  stream.read(1))   signed;   struct.error when the stream is short
+     read_i16  struct.unpack('>h', stream.read(2))   signed
+     read_i32  struct.unpack('>i', stream.read(4))   signed
+     read_f32_list / read_i32_list / read_i8_list: one unpack of exactly n items (error when short)
+   = rd_i8 / rd_i16 / rd_i32 / rep n rd_w32 ... (Err Truncated = struct.error).
+     read_pascal_str: the length byte is read UNSIGNED ('B'); stream.read(str_len) may return FEWER
+     bytes at the end of the stream without any error; str(.., 'ascii') raises on a byte >= 128. *)
+Definition lib_rd_pstr : parser bytes :=
+  n <- rd_u8 ;; fun bs =>
+  let s := firstn (Z.to_nat n) bs in
+  if forallb ascii_ok s then Ok (s, skipn (Z.to_nat n) bs) else Err NotAscii.
+
+(* SynthDesc.def_name_from_bytes: 4 bytes skipped, version and count read and ignored *)
+Definition def_name_of (bs : bytes) : option bytes :=
+  if negb (forallb byte_ok bs) then None else
+  match (_ <- (fun b : bytes => Ok (tt, skipn 4 b)) ;; _ <- rd_i32 ;; _ <- rd_i16 ;; lib_rd_pstr) bs with
+  | Ok (n, _) => Some n
+  | Err _ => None
+  end.
+
+(* SynthDesc.new_from on the bytes: 4 bytes skipped (stream.read(4), result unused), version (>= 2),
+   def count (unused), then _read_synthdef2, which stops after the variant count *)
 Definition read_desc (bs : bytes) : option desc :=
   if negb (forallb byte_ok bs) then None else
-  match (_ <- rd_take 4 ;; v <- rd_i32 ;; _ <- rd_i16 ;;
+  match (_ <- (fun b : bytes => Ok (tt, skipn 4 b)) ;; v <- rd_i32 ;; _ <- rd_i16 ;;
          if v <? 2 then pfail BadVersion else
-         c <- rd_core ;; nv <- rd_i16 ;; pret (c, nv)) bs with
+         c <- rd_core_w lib_rd_pstr ;; nv <- rd_i16 ;; pret (c, nv)) bs with
   | Err _ => None
   | Ok ((name, consts, ctlw, names, units, nv), _) => desc_of name consts ctlw names units nv
   end.
@@ -628,7 +657,7 @@ Definition declared_ok (ds : option desc) (decl : list (bytes * Z * Z * list Z))
 
 Definition check_case (bs : bytes) (order : list (Z * bool)) (libdesc : option desc)
            (names3 : list (bytes * Z * Z)) (vsrc : list (bytes * list (bytes * list Z)))
-           (decl : list (bytes * Z * Z * list Z)) : Z :=
+           (decl : list (bytes * Z * Z * list Z)) (libname : option bytes) : Z :=
   match parse_def bs with
   | Err _ => 1                                                     (* real bytes do not parse *)
   | Ok d =>
@@ -637,6 +666,7 @@ Definition check_case (bs : bytes) (order : list (Z * bool)) (libdesc : option d
     if negb (Nat.eqb (List.length order) (List.length (d_units d)) && wfirst_ok order) then 4 else
     if negb (opt_eqb desc_eqb (read_desc bs) libdesc) then 5 else  (* library reader <> read_desc *)
     if negb (declared_ok (read_desc bs) decl) then 7 else          (* recovered controls <> declared parameters *)
+    if negb (opt_eqb bytes_eqb (def_name_of bs) libname) then 8 else (* def_name_from_bytes <> def_name_of *)
     if list_eqb variant_eqb (resolve_variants (d_name d) (d_ctl d) names3 vsrc) (d_variants d) then 0 else 6
   end.
 
